@@ -225,7 +225,11 @@ func (g *gen) intCall() *N {
 			if !g.cfg.Objects {
 				continue
 			}
-			recv := nID("O")
+			var recv *N = nID("O")
+			if g.cfg.Failing && g.r.Chance(1, 3) {
+				// a receiver that is itself an operation (and may be nil at run time)
+				recv = nProp(nID("O"), "Next", false)
+			}
 			if g.r.Chance(1, 4) {
 				return nMeth(recv, "Twice", false, g.Int())
 			}
